@@ -43,6 +43,22 @@ def seeds_table():
         rows.append(f"| {sid} | {m['property']} | {note} | {det}{(' -- ' + hist) if hist else ''} | {first} |")
     return "\n".join(rows)
 
+def rules_table():
+    """Inventory of the rules each check evaluated in its last run on /repo (from the committed evidence files)."""
+    rows = ["| rule | obligations (discharged / known / floor) | what it decides |", "|---|---|---|"]
+    known = {}
+    for k in json.load(open(os.path.join(V, "known_findings.json")))["findings"]:
+        if k["status"] == "known":
+            known[(k["property"], k["rule"])] = known.get((k["property"], k["rule"]), 0) + 1
+    for f in sorted(glob.glob(os.path.join(V, "evidence/C*.json"))):
+        e = json.load(open(f))
+        pid = e["property_id"]
+        for rid, r in e["coverage"]["rules"].items():
+            kn = known.get((pid, rid), 0)
+            rows.append(f"| {rid} | {r['instances']} ({r['discharged']} / {kn} / {r['floor']}) | {r['text'].replace('|', '/')} |")
+    return "\n".join(rows)
+
+
 def put(s, name, body):
     a, b = f"<!-- BEGIN {name} -->", f"<!-- END {name} -->"
     if a in s:
@@ -54,5 +70,7 @@ s = open(p).read()
 if "--no-selftest" not in sys.argv:
     s = put(s, "SELFTEST_TABLE", selftest_table())
 s = put(s, "SEEDS_TABLE", seeds_table())
+if "RULES_TABLE" in s:
+    s = put(s, "RULES_TABLE", rules_table())
 open(p, "w").write(s)
 print("DESIGN.md tables refreshed")
